@@ -257,7 +257,7 @@ def plan(tier, seed):
     NS = 64
     for k in range(NS):
         if not q or k % 8 == seed % 8:
-            jobs.append(('names', k, NS))
+            jobs.append(('names', k, NS, q))
     return jobs
 
 
@@ -297,9 +297,9 @@ def run_job(job, T):
                               short if short in CORE_TAGS | SPECIAL_TAGS | PYVAL_TAGS else tag, kn, c, True)
         T.sample('registered-tags', {'doc': doc})
     elif kind == 'names':
-        _, k, ns = job
+        _, k, ns, quick_ = job
         T.count('module_names', len(NAMES))
-        kinds = [G.KINDS[0], G.KINDS[3]]
+        kinds = [G.KINDS[0], G.KINDS[3]] if quick_ else G.KINDS
         doc = None
         for i, name in enumerate(NAMES):
             if i % ns != k:
@@ -307,7 +307,7 @@ def run_job(job, T):
             for prefix in G.PY_PREFIX:
                 tag = G.tag_text(prefix + name)
                 for kn, ktext in kinds:
-                    for c in ('root', 'seq-item'):
+                    for c in (('root', 'seq-item') if quick_ else ('root', 'seq-item', 'aliased', 'nested-py')):
                         doc = G.in_context(c, '%s %s' % (tag, ktext))
                         check_doc(T, 'module-names', {'doc': doc, 'tag': tag, 'kind': kn, 'context': c}, doc, tag, kn, c, False)
         if doc:
